@@ -54,7 +54,8 @@ theorem schedule_msg (flags : Nat) (o : Nat) (m : PSIPMsg) (l : List Buf) (hg : 
     RR msgObs (resumeRun (msgP flags) o m l) (oneShotRun (msgP flags) o m l) :=
   resumeRun_eq_oneShotRC (msgP flags) msgOK2 msgObs _ (resumable_msg flags) o m l hg hfit h0
 
-/-- **C01 from Init**: any previous contents of the object, caller arrays of any capacity (or none) -/
+/-- **C01 from Init**: any previous contents of the object, ZEROED caller arrays of any capacity (or none) — Go's Init does
+    not clear a caller-supplied array, so "like new" presupposes a cleared one -/
 theorem schedule_msg_init (flags : Nat) (o : Nat) (m0 : PSIPMsg) (len kh kc : Nat) (hdrs cts : Option Unit)
     (l : List Buf) (hg : Growing l) (hfit : ∀ x ∈ l, x.size ≤ 65535) (ho : ∀ b ∈ l.head?, o ≤ b.size) :
     let m := m0.init len (hdrs.map fun _ => Array.replicate kh {}) (cts.map fun _ => Array.replicate kc {})
